@@ -315,6 +315,88 @@ theorem C09_history (utf8 : Bool) :
     · exact C09_status_keys_eq_accepted utf8 pool tx x
     · exact ih _ o ho x
 
+/-! ### SMTPUTF8: message flag × capability of the next hop -/
+
+/-- **C09 under every SMTPUTF8 combination.** Whatever the message's SMTPUTF8 flag, whether the next hop
+offers the extension and whether it enforces RFC 6531 §3.4 — in every transaction of every history the
+results are reported under exactly the addresses `AddRcpt` accepted, as given, with multiplicity. -/
+theorem C09_history_caps (k : Caps) (txs : List Tx) (pool : Pool) :
+    ∀ o ∈ runHistoryCaps k pool txs, ∀ x,
+      (o.statuses.map (fun p => p.1)).count x =
+        ((o.adds.filter (fun p => p.2)).map (fun p => p.1)).count x := by
+  intro o ho x
+  exact C09_history k.srvUtf8 (txs.map (Tx.answer k)) pool o ho x
+
+/-- One `C.Rcpt` never takes anything away from the transaction: what the connection had recorded
+(`Rcpts()`) and what the next hop holds stay in place, in order; at most the new address is appended to both —
+for every kind of recipient (non-ASCII without an ASCII form included) and every outcome. -/
+theorem C09_rcpt_keeps_earlier_recipients (c : Conn) (utf8 : Bool) (r : Rcpt) :
+    ∃ sfx, (c.rcpt utf8 r).1.rcpts = c.rcpts ++ sfx ∧ (c.rcpt utf8 r).1.wire = c.wire ++ sfx ∧
+      sfx = (if (c.rcpt utf8 r).2 = true then [r.id] else []) := by
+  unfold Conn.rcpt
+  by_cases h1 : (c.dead || !sendable utf8 r) = true
+  · exact ⟨[], by simp [h1]⟩
+  · by_cases h2 : r.fault = true
+    · exact ⟨[], by simp [h1, h2]⟩
+    · by_cases h3 : r.accept = true
+      · exact ⟨[r.id], by simp [h1, h2, h3]⟩
+      · exact ⟨[], by simp [h1, h2, h3]⟩
+
+theorem rcpt_refused (c : Conn) (utf8 : Bool) (r : Rcpt) (h : r.accept = false) : (c.rcpt utf8 r).2 = false := by
+  unfold Conn.rcpt
+  by_cases h1 : (c.dead || !sendable utf8 r) = true
+  · simp [h1]
+  · by_cases h2 : r.fault = true
+    · simp [h1, h2]
+    · simp [h1, h2, h]
+
+theorem addTo_refused (utf8 : Bool) (r : Rcpt) (h : r.accept = false) (conns : Conns) (pool : Pool) :
+    (addTo utf8 r conns pool).2.2 = false := by
+  induction conns generalizing pool with
+  | nil => simp only [addTo]; exact rcpt_refused _ utf8 r h
+  | cons e rest ih =>
+    obtain ⟨d, c⟩ := e
+    simp only [addTo]
+    by_cases hd : (d == r.dom) = true
+    · simp only [hd, ↓reduceIte]; exact rcpt_refused _ utf8 r h
+    · simp only [hd, Bool.false_eq_true, ↓reduceIte]; exact ih pool
+
+/-- A message WITHOUT the SMTPUTF8 flag meets a next hop that offers the extension and enforces §3.4: a
+non-ASCII recipient (IDN domain or non-ASCII local part — `C.Rcpt` sends both as given) is refused, and
+the delivery keeps exactly the status keys it had — every recipient accepted before stays accepted and
+will get its result (nothing is restarted, no connection is replaced). -/
+theorem C09_non_ascii_refused_without_smtputf8_keeps_transaction (k : Caps) (hs : k.srvUtf8 = true)
+    (hst : k.strict = true) (hm : k.msgUtf8 = false) (r : Rcpt) (hna : r.nonAscii = true)
+    (conns : Conns) (pool : Pool) :
+    (addTo k.srvUtf8 (k.answer r) conns pool).2.2 = false ∧
+      ∀ x, (keys (addTo k.srvUtf8 (k.answer r) conns pool).1).count x = (keys conns).count x := by
+  have hacc : (k.answer r).accept = false := by
+    simp [Caps.answer, Caps.refuses, Caps.mailUtf8, hs, hst, hm, hna]
+  have hok := addTo_refused k.srvUtf8 (k.answer r) hacc conns pool
+  refine ⟨hok, ?_⟩
+  intro x
+  rw [addTo_keys, hok]
+  simp
+
+/-- `C.Rcpt` does not look at the message's flag: towards a next hop that does not enforce §3.4 (or does not
+offer SMTPUTF8 at all) the flag changes nothing. -/
+theorem C09_message_flag_irrelevant_unless_enforced (k : Caps) (h : (k.srvUtf8 && k.strict) = false)
+    (pool : Pool) (txs : List Tx) :
+    runHistoryCaps k pool txs = runHistory k.srvUtf8 pool txs := by
+  have hr : ∀ r : Rcpt, k.answer r = r := by
+    intro r
+    have : k.refuses r = false := by
+      unfold Caps.refuses
+      rw [h]; simp
+    simp [Caps.answer, this]
+  have ht : ∀ tx : Tx, Tx.answer k tx = tx := by
+    intro tx
+    have : tx.rcpts.map k.answer = tx.rcpts := by
+      rw [List.map_congr_left (g := id) (fun a _ => hr a), List.map_id]
+    simp [Tx.answer, this]
+  unfold runHistoryCaps
+  rw [List.map_congr_left (g := id) (fun a _ => ht a), List.map_id]
+
 /-- **C09 (LMTP next hop).** Exactly one result per accepted recipient, in order, under the
 address given — however many statuses the server managed to send. -/
 theorem C09_lmtp_one_status_each (accepted : List Nat) (serverSt : List Bool) :
@@ -562,6 +644,17 @@ def openFailTx : Tx := { rcpts := [⟨1, 0, false, false, true, false⟩, ⟨2, 
 example : (runTx false [] openFailTx).2.statuses = [(1, false), (4, false), (2, true), (3, false)] := by decide
 example : (runTx false [] openFailTx).2.delivered = [2] := by decide
 example : (runTx false [] { openFailTx with quarantine := true }).2.statuses = [(1, false), (2, false), (3, false), (4, false)] := by decide
+/-- two ASCII recipients accepted on connection 0, then a recipient with a non-ASCII local part (no ASCII
+form) on the same connection, message without the SMTPUTF8 flag: an enforcing next hop refuses it and the
+two earlier recipients keep their results; with the flag (or a lax next hop) all three are reported. -/
+def utf8Tx : Tx := { rcpts := [⟨1, 0, false, false, true, false⟩, ⟨2, 0, false, false, true, false⟩, ⟨3, 0, true, false, true, false⟩],
+                     dataFail := fun _ => false }
+example : (runHistoryCaps { srvUtf8 := true, strict := true, msgUtf8 := false } [] [utf8Tx]).map (·.adds) = [[(1, true), (2, true), (3, false)]] := by decide
+example : (runHistoryCaps { srvUtf8 := true, strict := true, msgUtf8 := false } [] [utf8Tx]).map (·.statuses) = [[(1, true), (2, true)]] := by decide
+example : (runHistoryCaps { srvUtf8 := true, strict := true, msgUtf8 := true } [] [utf8Tx]).map (·.statuses) = [[(1, true), (2, true), (3, true)]] := by decide
+example : (runHistoryCaps { srvUtf8 := true, strict := false, msgUtf8 := false } [] [utf8Tx]).map (·.statuses) = [[(1, true), (2, true), (3, true)]] := by decide
+example : (runHistoryCaps { srvUtf8 := false, msgUtf8 := false } [] [utf8Tx]).map (·.adds) = [[(1, true), (2, true), (3, false)]] := by decide
+example : ∃ k : Caps, k.srvUtf8 = true ∧ k.strict = true ∧ k.msgUtf8 = false := ⟨{ srvUtf8 := true, strict := true, msgUtf8 := false }, rfl, rfl, rfl⟩
 /-- LMTP: the same address accepted twice gets the replies at ITS two positions, the recipient after
 it keeps its own reply (nothing shifts). -/
 example : lmtpStatuses [1, 1, 2] [true, false, true] = [(1, true), (1, false), (2, true)] := by decide
